@@ -75,6 +75,9 @@ def run(ctx):
                                                    2: "observation differs from the Coq model"}[code],
                "replay_cmd": "./check C11 --replay <this file>"}
         ctx.report(rep, features(j), failing_input=(code == 1))
+    triples = 0
+    if not quick:
+        triples = triple_sweep(ctx, binp, header)
     ops = sum(len(j["ops"]) for j in jsons)
     nt = [j for j in jsons if nontrivial(j)]
     ctx.cov.update({
@@ -92,8 +95,39 @@ def run(ctx):
         "op_histogram": hist(o["op"] for j in jsons if j["kind"] != "sweep8" for o in j["ops"]),
         "samples": [shrink_view(j) for j in jsons[:2] + jsons[3:5]],
         "disagreements": len(bad),
+        "triples_checked": triples,
+        "triples_note": "thorough tier: all 2^24 (set, flag, flag) triples of the 8-bit type through Add(f,g)/Remove(f,g), compared by per-set checksum computed on the real code, the model and the spec",
     })
     ctx.log("correspondence: %d cases, %d operations, %d disagreement(s)" % (len(jsons), ops, len(bad)))
+
+
+def triple_sweep(ctx, binp, header):
+    """all (s, f, g) of the 8-bit type: per-s checksum from the real code vs model and spec"""
+    terms, jsons, err = vlib.harness_cases(ctx, binp, [("triples", ["-mode", "triples"])])
+    if err:
+        ctx.report({"unchecked": "triple sweep harness run", "detail": err}, {"kind": "harness"}, failing_input=False)
+        return 0
+    bad, _, err = ctx.judge_cases(header, "tri_case", "tri_judge", terms, shard=16, tag="tri", timeout=1500)
+    if err:
+        ctx.report({"unchecked": "in-kernel evaluation of the triple sweep", "detail": err},
+                   {"kind": "coq_eval"}, failing_input=False)
+        return 0
+    for i, code in bad[:2]:
+        s = jsons[i]["s"]
+        t2, j2, err = vlib.harness_cases(ctx, binp, [("tripledetail", ["-mode", "tripledetail", "-n", s])])
+        found = False
+        if not err:
+            b2, _, err = ctx.judge_cases(header, "bs_case", "bs_judge", t2, shard=16, tag="trid")
+            for k, c2 in (b2 or [])[:1]:
+                j = minimise(ctx, header, j2[k])
+                ctx.report({"case": shrink_view(j), "verdict": "observation violates the bit-set specification"},
+                           features(j), failing_input=(c2 == 1))
+                found = True
+        if not found:
+            ctx.report({"unchecked": "triple checksum for stored value %d" % s, "case": jsons[i]},
+                       {"kind": "triples8"}, failing_input=False)
+    ctx.log("triple sweep: 256 stored values x 65536 (flag, flag) pairs, %d checksum mismatch(es)" % len(bad))
+    return 256 * 65536
 
 
 def g_op(o):
